@@ -759,3 +759,101 @@ def c02_5(ctx: Ctx):
               f"`{src(impure[0].node)[:70] if impure else ''}` (line {impure[0].node.lineno if impure else 0}) runs before the joinability check: when the join is refused "
               "the blocks are left half-merged (block2's end labels already moved in front of its bytes)",
               key="join_blocks::refuse-before-mutation")
+
+
+@rule("C02.6", ["C02"], "are_joinable refuses to grow a block past its own end labels", 1)
+def c02_6(ctx: Ctx):
+    from ..effects import predicate_formula
+    from .c06 import _strip_implies
+
+    repo = ctx.repo
+    fi = repo.func("_modify.join.are_joinable")
+    pf = predicate_formula(repo, fi)
+    if pf is None:
+        raise AnalysisError("are_joinable: not a boolean cascade")
+    lin = linear(fi.node)
+    pre = "block1.size and type(block1) is type(block2) and block1.byte_interval is block2.byte_interval and module and block1.offset + block1.size == block2.offset and "
+    text = "block2.size and any((sym.at_end for sym in cache.reference_cache.get_references(block1)))"
+    cond = lin.cond(ast.parse(pre + text, mode="eval").body, {})
+    ctx.check(_strip_implies(cond, pf, negate=True), fi, fi.node, "refuses: block1 carries an end label and block2 has bytes",
+              "are_joinable can return true for two non-empty blocks although block1 has at_end symbols: after the join those symbols sit behind block2's bytes "
+              "(a label that ended an inserted data patch lands after the original tail of the block)",
+              key="C02.6::block1-end-labels")
+
+
+@rule("C03.11", ["C03"], "an empty block is merged into a predecessor with a terminator only when that predecessor falls through into it", 2)
+def c03_11(ctx: Ctx):
+    from ..effects import predicate_formula
+    from .c06 import _strip_implies
+
+    repo = ctx.repo
+    fi = repo.func("_modify.join.are_joinable")
+    pf = predicate_formula(repo, fi)
+    if pf is None:
+        raise AnalysisError("are_joinable: not a boolean cascade")
+    # a local that says "block1 falls through to block2"
+    ft = None
+    for a in [n for n in walk_no_nested(fi.node) if isinstance(n, ast.Assign) and isinstance(n.targets[0], ast.Name)]:
+        t = src(a.value)
+        if "block1.outgoing_edges" in t and "_is_fallthrough_edge(edge)" in t and ("edge.target == block2" in t or "edge.target is block2" in t) and "not _is_fallthrough_edge" not in t:
+            ft = a.targets[0].id
+    ctx.check(ft is not None, fi, fi.node, "are_joinable asks whether block1 falls through to block2",
+              "are_joinable never establishes that block1 falls through to block2: an empty block2 (which carries the fallthrough to the rest of the original block after a patch "
+              "ending in jmp/ret) is merged into a block1 that ends in that jmp/ret, and block1 inherits a Fallthrough edge it cannot take",
+              key="C03.11::falls-through-known")
+    if ft is None:
+        return
+    lin = linear(fi.node)
+    pre = "block1.size and type(block1) is type(block2) and block1.byte_interval is block2.byte_interval and module and block1.offset + block1.size == block2.offset and isinstance(block1, gtirb.CodeBlock) and "
+    cond = lin.cond(ast.parse(pre + f"any_out_edges and not {ft}", mode="eval").body, {})
+    ctx.check(_strip_implies(cond, pf, negate=True), fi, fi.node, "refuses: block1 has a non-fallthrough terminator and does not fall through to block2",
+              f"are_joinable can return true although block1 has other outgoing edges and `{ft}` is false", key="C03.11::refuses")
+
+
+@rule("C03.12", ["C03"], "several calls to one callee in one patch each get their return edge", 1)
+def c03_12(ctx: Ctx):
+    fi = ctx.repo.func("_modify.edges.add_return_edges_to_callee")
+    lin = linear(fi.node)
+    params = [a.arg for a in fi.params]
+    if "cfg" not in params:
+        raise AnalysisError("add_return_edges_to_callee: parameter cfg not found")
+    adds = [c for g, c in lin.all_calls() if src(c.func) == "cfg.add"]
+    discards_ir = [c for g, c in lin.all_calls() if src(c.func).endswith("ir.cfg.discard")]
+    if not adds or not discards_ir:
+        raise AnalysisError("add_return_edges_to_callee: expected IR-side discard and cfg-side add")
+    skips = [g for g in lin.stmts if isinstance(g.node, ast.Continue)]
+    if len(skips) != 1:
+        raise AnalysisError(f"add_return_edges_to_callee: {len(skips)} skip points")
+    tests = [x.node.test for x in lin.stmts if isinstance(x.node, ast.If) and any(s is skips[0].node for s in ast.walk(x.node))]
+    reads_new = any(isinstance(n, ast.Name) and n.id == "cfg" for t in tests for n in ast.walk(t))
+    ctx.check(reads_new, fi, skips[0].node, "the 'block does not return' skip also looks at return edges already placed in `cfg`",
+              "the skip test reads only the IR-side return cache, but this function moves a block's placeholder return edge out of the IR and adds its replacement to `cfg` (the patch's CFG, "
+              "merged later): on the second call for the same callee the block looks as if it never returned and the second call site gets no Return edge",
+              key="add_return_edges_to_callee::read-your-writes")
+
+
+@rule("C03.13", ["C03"], "code that ends up without a terminator in front of other code gets a fallthrough edge to it", 2)
+def c03_13(ctx: Ctx):
+    """Two ways to produce a block whose last instruction can fall through while the block has
+    no Fallthrough edge: deleting the terminator of a block, and inserting after a terminator
+    that does not fall through. Either needs an edge to the *physically next* block, which only
+    the block ordering (adjacent_blocks / next_block) knows."""
+    repo = ctx.repo
+    cases = {
+        "delete": ("_modify.edit.delete", "the deleted range reaches the end of the block (its terminator is deleted): the remaining head has no outgoing edge at all, "
+                   "although it now runs into the following block (push; pop; ret  ->  delete ret  ->  no Fallthrough to the next block)"),
+        "insert": ("_modify.edit.insert", "the patch is inserted at the end of a block whose terminator does not fall through (after ret/jmp): the inserted code has no "
+                   "Fallthrough edge to the block that physically follows it"),
+    }
+    helpers = ["_modify.edit._cleanup_modified_blocks", "_modify.remove.remove_block", "_modify.split.split_block"]
+    for name, (q, why) in sorted(cases.items()):
+        fi = repo.func(q)
+        found = None
+        for f in [fi] + [repo.func(h) for h in helpers]:
+            for c in calls_in(f.node):
+                t = src(c)
+                establishes = (src(c.func) == "update_fallthrough_target" or ("gtirb.Edge(" in t and "Fallthrough" in t and src(c.func).endswith(".add")))
+                if establishes and ("next_block" in t or "adjacent_blocks" in t):
+                    found = (f, c)
+        ctx.check(found is not None, fi, fi.node, f"{name}: a tail without terminator is linked to the physically next block",
+                  why, key=f"C03.13::{name}::no-fallthrough-to-next-block")
